@@ -4,4 +4,6 @@ CONSTANTS MaxMut
 AllMuts == UNION {MutsOf(k) : k \in Kinds}
 Next == /\ Len(hist) < MaxMut
         /\ \E side \in {"x", "y"}, m \in AllMuts : Mut(side, m)
+\* simulation mode: long mutation histories
+Emit == Len(hist) = MaxMut => PrintT(<<"CASE", kind, op, hist>>)
 =============================================================================
